@@ -3,6 +3,7 @@
 -/
 import SplVerif.Lemmas.ParserTables
 import SplVerif.Lemmas.Resync
+import SplVerif.Lemmas.Contain
 import SplVerif.Lemmas.Prefix
 import SplVerif.Lemmas.Total
 import SplVerif.Lemmas.Shift
@@ -182,73 +183,8 @@ theorem following_declarations_as_before (A : List Token) (progA : Program) (hA 
    damaged sequence are instantiated by the three damage operations of PROPCONTAIN. -/
 
 section
-open Spl Spl.Parse Spl.ParseConform Spl.FreshEnd
+open Spl Spl.Parse Spl.ParseConform Spl.FreshEnd Spl.Contain
 
-
-/-- a declaration that starts with doc comments and a keyword fails in front of the end-of-file token -/
-theorem doctk_fails_at_eof {α} (ctx : Ctx) (k : Kind) (hk : (Kind.Eof == k) = false) (rest : List (List Char) → P α)
-    (s : St) (i : Nat) (t : Token) (hN : Next ctx.toks s.pos i) (ht : ctx.toks[i]? = some t) (hty : t.ty = .Eof) :
-    IsErr (Parse.bind (docComments ctx) (fun doc => Parse.bind (tk ctx k) (fun _ => rest doc)) s) := by
-  have hdoc := docComments_run ctx (i - s.pos) s i rfl hN
-  have hkc : t.kind ≠ .Comment := by simp [Token.kind, hty, TokenType.kind]
-  have he := tk_here ctx { s with pos := i } t k ht hkc
-  have hkk : (t.ty.kind == k) = false := by simpa [hty, TokenType.kind] using hk
-  rw [hkk] at he
-  simp only [Bool.false_eq_true, if_false] at he
-  exact ⟨false, { s with pos := i }, by simp [Parse.bind, hdoc, he]⟩
-
-/-- at the end-of-file token the declaration loop stops: no further declaration -/
-theorem loop_at_eof (ctx : Ctx) (s : St) (i : Nat) (hat : At ctx s [⟨i, .Eof⟩]) (f : Nat) :
-    many0 (refParse (parseGlobalDecl ctx) none) (f + 1) s = .ok s [] := by
-  obtain ⟨hN, ⟨t, ht, hty⟩, _, _⟩ := hat.head
-  have href := hat.ref
-  -- the state the declaration parser runs in
-  let s1 : St := { s with refPos := s.pos }
-  have hN1 : Next ctx.toks ({ s1 with errBuf := [] } : St).pos i := hN
-  have e1 : IsErr (pmap GlobalDecl.type (parseTypeDecl ctx none) s1) := by
-    apply pmap_err
-    show IsErr (pmap _ (info (typeDeclInner ctx none none)) s1)
-    apply pmap_err
-    apply info_err _ _ _ (Nat.le_refl _)
-    unfold typeDeclInner
-    exact doctk_fails_at_eof ctx .Type (by decide) _ _ i t hN1 ht hty
-  have e2 : IsErr (pmap GlobalDecl.proc (parseProcDecl ctx none) s1) := by
-    apply pmap_err
-    show IsErr (pmap _ (info (procDeclInner ctx none)) s1)
-    apply pmap_err
-    apply info_err _ _ _ (Nat.le_refl _)
-    rw [Total.procDeclInner_eq]
-    exact doctk_fails_at_eof ctx .Proc (by decide) _ _ i t hN1 ht hty
-  have e3 : IsErr (info (ignoreUntil1 ctx (peek (la ctx .global_dec)) (loopFuel ctx)) s1) := by
-    apply info_err _ _ _ (Nat.le_refl _)
-    have hla := (la_global_next ctx { s1 with errBuf := [] } i t hN1 ht).1 (by simp [isSync, hty, TokenType.kind])
-    exact ⟨false, { s1 with errBuf := [] }, by simp [ignoreUntil1, peek, hla]⟩
-  have hall : IsErr (parseGlobalDecl ctx none s1) := by
-    show IsErr (altList [pmap GlobalDecl.type (parseTypeDecl ctx none), pmap GlobalDecl.proc (parseProcDecl ctx none), pmap _ _] s1)
-    rw [altList_cons_err _ _ _ (by simp) e1, altList_cons_err _ _ _ (by simp) e2]
-    simp only [altList]
-    exact pmap_err _ _ _ e3
-  obtain ⟨k, x, hx⟩ := hall
-  have hr : refParse (parseGlobalDecl ctx) none s = .err k { x with refPos := s.refPos, incRefs := x.incRefs.dropLast } := by
-    have a1 : ¬ s.pos < s.refPos := by omega
-    simp only [refParse, Option.map_none, a1, if_false]
-    have : parseGlobalDecl ctx none { s with refPos := s.pos } = .err k x := hx
-    rw [this]
-  rw [many0_succ, hr]
-
-/-- the first token of a derived declaration list, behind its documentation comments, is a declaration keyword -/
-theorem decls_head_keyword (ctx : Ctx) (fd : Nat) (ts : Grammar.Toks) (d : Ref GlobalDecl) (ds : List (Ref GlobalDecl))
-    (last : Option Nat) (hs : Grammar.decls (G ctx) fd ts = some (d :: ds, last)) (s : St) (hat : At ctx s ts) :
-    ∃ i t, Next ctx.toks s.pos i ∧ ctx.toks[i]? = some t ∧ (t.kind = Kind.Proc ∨ t.kind = Kind.Type) := by
-  cases fd with
-  | zero => simp [Grammar.decls] at hs
-  | succ fd =>
-    rcases decls_other _ _ _ _ _ hs with ⟨i, _, h0, _⟩ | ⟨i, r, rfl⟩ | ⟨i, r, rfl⟩
-    · cases h0
-    · obtain ⟨hN, ⟨t, ht, hty⟩, _, _⟩ := hat.head
-      exact ⟨i, t, hN, ht, Or.inr (by simp [Token.kind, hty, TokenType.kind])⟩
-    · obtain ⟨hN, ⟨t, ht, hty⟩, _, _⟩ := hat.head
-      exact ⟨i, t, hN, ht, Or.inl (by simp [Token.kind, hty, TokenType.kind])⟩
 
 /-- **A syntax error stays in its declaration: what follows is parsed exactly as before.**  `A` is the undamaged
     token sequence with the derivation `progA` of the grammar specification (what `parser::parse` returns for it, by
@@ -387,9 +323,6 @@ theorem declarations_behind_damage_as_before (A B : List Token) (progA progB : P
         | panic e => rw [hrest] at hbig; simp [prependRes] at hbig
 
 
-theorem refErrors_nil {α} (errs : α → List SplError) (r : Ref α) (h : refErrors errs r = []) : errs r.val = [] := by
-  simpa [refErrors] using h
-
 /-- **The syntax diagnostics of the damaged program lie outside the declarations behind the damage.**  In the setting of
     `declarations_behind_damage_as_before`: the copies of the undamaged declarations carry no diagnostic, so every
     diagnostic of the parse is attached to the program node or to a declaration node in front of them (the damaged
@@ -429,10 +362,6 @@ theorem diagnostics_outside_undamaged_declarations (A B : List Token) (progA pro
   rw [hmid]
   simp
 
-
-theorem relDecl_offset (d : Ref GlobalDecl) : (Grammar.relDecl d).offset = d.val.info.range.lo := by
-  obtain ⟨v, o⟩ := d
-  cases v <;> rfl
 
 /-- **A syntax error stays contained in the declaration it occurs in** — both sides at once.  `B` is any token
     sequence that starts with declarations `front` the grammar derives (`DeclsPrefix`), each starting in front of
@@ -484,16 +413,6 @@ theorem damage_is_contained (A B : List Token) (progA progB : Program)
     rw [← ht, List.take_append_drop]
   exact ⟨mid, by rw [h1, hmid]⟩
 
-
-theorem drop_stretch {α} (X M Y : List α) (n : Nat) : (X ++ M ++ Y).drop (X.length + M.length + n) = Y.drop n := by
-  have : X.length + M.length + n = (X ++ M).length + n := by simp
-  rw [this, List.drop_append]
-  simp
-
-theorem get_stretch {α} (X M Y : List α) (n : Nat) : (X ++ M ++ Y)[X.length + M.length + n]? = Y[n]? := by
-  have : X.length + M.length + n = (X ++ M).length + n := by simp
-  rw [this, List.getElem?_append_right (by omega)]
-  simp
 
 /-- **The property's own quantifier: a stretch of tokens of one declaration is deleted, inserted or replaced.**
     `A = X ++ M0 ++ Y` is the undamaged sequence, `B = X ++ M ++ Y` the damaged one (`M0 = [t]`, `M = []`: a token
